@@ -35,7 +35,10 @@ def subclassify(rng, t, v, lk):
     if k == "td" and isinstance(v, dict) and "$td" in v and abs(v["$td"][0]) < 10**6:
         return {"$pend": ["td", v]}
     if k in ("dict", "Mapping", "MutableMapping") and isinstance(v, dict) and "$dict" in v:
-        return {"$odict": [[kk, subclassify(rng, t["a"][1], vv, lk)] for kk, vv in v["$dict"]]}
+        # keys may be instances of a subclass of the key type too (a tagged str): what is written is a plain str
+        sub_keys = t["a"][0]["k"] == "str" and rng.random() < 0.6
+        tag = rng.choice(["$odict", "$dict"])
+        return {tag: [[{"$strsub": kk} if (sub_keys and isinstance(kk, str)) else kk, subclassify(rng, t["a"][1], vv, lk)] for kk, vv in v["$dict"]]}
     if k in ("Sequence", "Collection", "Iterable", "MutableSequence") and isinstance(v, dict) and "$list" in v:
         if k in ("Collection", "Iterable", "Sequence"):
             return {"$deque": [subclassify(rng, t["a"], e, lk) for e in v["$list"]]}
